@@ -4,7 +4,7 @@
 ROOT=${ROOT:-/tmp/mut}; TAG=${TAG:-}
 for P in "$@"; do
   W=$ROOT/$P
-  [ -x $W/seeded/verify.sh ] || { echo "$P: no verify.sh"; continue; }
+  [ -f $W/seeded/verify.sh ] || { echo "$P: no verify.sh"; continue; }
   (cd $W && git checkout -q -- . && timeout 3000 bash seeded/verify.sh > $ROOT/$P.verify.log 2>&1; echo "exit=$?" >> $ROOT/$P.verify.log)
   k=1
   grep "^RESULT" $ROOT/$P.verify.log | while read -r line; do
